@@ -147,4 +147,47 @@ mutual
     | n :: ns => nodeOkM m n && nodesOkM m ns
 end
 
+/-! ### … and the same sites under `strip_whitespace=True` (`structure_preserved_markup_strip_partial`)
+
+  The filter normalises a `Markup` text as one piece, the author's tags included.  The theorem
+  follows it when the author's elements are not whitespace-preserving ones (the filter does not see
+  them as elements), their tags are balanced, and no attribute value inside them holds a newline
+  (the normalisation would reach into the value). -/
+
+def tokWsOkB (m : Method) : Tok → Bool
+  | .open t a => !(preserveElems m).contains t && a.all fun p => p.2.all (· != '\n')
+  | _ => true
+
+/-- the author's tags are balanced (`d` = how many are open) -/
+def closesOk : Nat → List Tok → Bool
+  | d, [] => d == 0
+  | d, .open _ _ :: rest => closesOk (d + 1) rest
+  | d, .close _ :: rest => decide (d > 0) && closesOk (d - 1) rest
+  | d, _ :: rest => closesOk d rest
+
+def sexprOkW (m : Method) : SExpr → Bool
+  | .fmtp ps as => sexprOkM m (.fmtp ps as) &&
+      (match fillEsc ps (as.filterMap strOf) with
+        | some toks => toks.all (tokWsOkB m) && closesOk 0 toks
+        | none => false)
+  | e => sexprOkB m e
+
+mutual
+  def nodeOkW (m : Method) : Node → Bool
+    | .lit _ => true
+    | .site e => sexprOkW m e
+    | .el t attrs pa kids =>
+        tagOkB m t && attrs.all (fun p => attrNameOkB m p.1 && attrSpecOkB p.2) &&
+        (match pa with
+          | none => true
+          | some items => items.all fun p => attrNameOkB m p.1 && atomOkB p.2) &&
+        (openOk m t || kids.isEmpty) && nodesOkW m kids
+    | .loop e kids => vexprOkB e && nodesOkW m kids
+    | .bind a kids => atomOkB a && nodesOkW m kids
+    | .cond _ kids => nodesOkW m kids
+  def nodesOkW (m : Method) : List Node → Bool
+    | [] => true
+    | n :: ns => nodeOkW m n && nodesOkW m ns
+end
+
 end Genshi.Subst
